@@ -52,6 +52,8 @@ class StreamableHTTPTransport(Transport):
         self._outgoing_task: Optional[asyncio.Task] = None
         self._request_semaphore = asyncio.Semaphore(self.max_concurrent_requests)
         self._routed_messages = 0  # messages handed on by _route_response
+        self._unroutable_parts = 0  # parts of an answer that were not a JSON-RPC message
+        self._routed_response_ids: list = []  # ids of the responses/errors handed on
 
         # Memory streams for chuk_mcp message API
         self._incoming_send: Optional[MemoryObjectSendStream] = None
@@ -130,6 +132,8 @@ class StreamableHTTPTransport(Transport):
         # Use semaphore to limit concurrent requests
         async with self._request_semaphore:
             routed_before = self._routed_messages
+            unroutable_before = self._unroutable_parts
+            del self._routed_response_ids[:]
             await self._send_message_internal(message)
 
             # Whatever the server answered, a request must end with a terminal
@@ -140,7 +144,27 @@ class StreamableHTTPTransport(Transport):
                 if isinstance(message, dict)
                 else getattr(message, "id", None)
             )
-            if message_id is not None and self._routed_messages == routed_before:
+            # Only a request awaits an answer: a response we POST (our answer to a
+            # request of the server's) carries an id too, but nothing may be
+            # synthesised for it
+            method = (
+                message.get("method")
+                if isinstance(message, dict)
+                else getattr(message, "method", None)
+            )
+            if method is None:
+                message_id = None
+            # ... or if part of it was broken (a truncated event, a junk batch member)
+            # and nothing that was delivered answers this request
+            nothing_routed = self._routed_messages == routed_before
+            broken_and_unanswered = (
+                self._unroutable_parts > unroutable_before
+                and not any(
+                    rid == message_id and type(rid) is type(message_id)
+                    for rid in self._routed_response_ids
+                )
+            )
+            if message_id is not None and (nothing_routed or broken_and_unanswered):
                 await self._route_response(
                     {
                         "jsonrpc": "2.0",
@@ -164,7 +188,9 @@ class StreamableHTTPTransport(Transport):
                 logger.error(f"Cannot serialize message of type {type(message)}")
                 return
 
-            message_id = message_dict.get("id")
+            # (an id on a message without a method is the id of a response we are
+            # POSTing, not of a request awaiting an answer)
+            message_id = message_dict.get("id") if "method" in message_dict else None
             method = message_dict.get("method", "unknown")
 
             logger.debug(f"Sending HTTP message: {method} (id: {message_id})")
@@ -457,11 +483,13 @@ class StreamableHTTPTransport(Transport):
 
             # Handle message events (the actual response)
             if event_type in ["message", "response", None]:
-                if full_data.strip().startswith("{"):
+                # One message, or a JSON-RPC batch array of them
+                if full_data.strip().startswith(("{", "[")):
                     try:
                         response_data = json.loads(full_data.strip())
                         await self._route_response(response_data)
                     except json.JSONDecodeError as e:
+                        self._unroutable_parts += 1
                         logger.error(f"Failed to parse SSE message JSON: {e}")
 
         except Exception as e:
@@ -481,6 +509,9 @@ class StreamableHTTPTransport(Transport):
             # Create JSON-RPC message (parse_message, as the stdio transport does:
             # a response whose result is not an object is still a response)
             message = parse_message(response_data)
+
+            if getattr(message, "method", None) is None and hasattr(message, "id"):
+                self._routed_response_ids.append(message.id)
 
             # Check if this is a response (has id but no method)
             if hasattr(message, "id") and message.id and not hasattr(message, "method"):
@@ -503,6 +534,7 @@ class StreamableHTTPTransport(Transport):
                 )
 
         except Exception as e:
+            self._unroutable_parts += 1
             logger.error(f"Error routing response: {e}")
             logger.error(f"Response data: {response_data}")
 
